@@ -1199,7 +1199,7 @@ func main() {
 		})
 	}
 	// whole-structure operations at every table-size class (sizeclass.go)
-	perSC := c.N(160, 1600)
+	perSC := c.N(128, 1600)
 	for _, d := range pmap.Types {
 		d := d
 		section := "sizeclass-" + d.Name
